@@ -1136,6 +1136,29 @@ package rueidis
 //@   assert [C11 the-sub-batch-sent-is-the-one-whose-positions-are-used] at doMultiCache: arg2 == slot && arg3 == batches.m[slot].commands
 
 // ---------------------------------------------------------------------------------------------
+// C05 — value-level part only: a call whose context is already done sends nothing and reports the context's error; the retry
+// back-off sleeps only when the deadline leaves room for the whole delay; a dead context gets a dead connection from the pool.
+// (How soon a call returns after its deadline is a timing property and is not decided: MANIFEST.)
+//@ func pipe.Do #c05
+//@   option opaque-pkgs=github.com/redis/rueidis/internal/cmds
+//@   modifies *
+//@   ensures [C05 a-done-context-sends-nothing-and-reports-its-error] returned(Err, 1) != nil ==> (calls(PutOne) == 0 && calls(syncDo) == 0 && calls(Do) == 0 && resp.err == returned(Err, 1))
+//@   assert [C05 a-request-is-queued-only-under-a-live-context] at PutOne: returned(Err, 1) == nil && arg1 == ctx
+//@   assert [C05 the-synchronous-path-gets-the-callers-deadline] at syncDo: returned(Err, 1) == nil && arg1 == first(returned(Deadline)) && arg2 == second(returned(Deadline))
+//@ func pipe.DoMulti #c05
+//@   option opaque-pkgs=github.com/redis/rueidis/internal/cmds
+//@   modifies *
+//@   assert [C05 a-batch-is-queued-only-under-a-live-context] at PutMulti: returned(Err, 1) == nil && arg1 == ctx
+//@   assert [C05 the-synchronous-path-gets-the-callers-deadline] at syncDoMulti: returned(Err, 1) == nil && arg1 == first(returned(Deadline)) && arg2 == second(returned(Deadline))
+//@ func retryer.WaitOrSkipRetry #c05
+//@   modifies *
+//@   assert [C05 the-back-off-sleeps-only-when-the-deadline-leaves-room-for-it] at WaitForRetry: arg1 == ctx && arg2 == returned(RetryDelay) && arg2 > 0 && (!second(returned(Deadline)) || returned(Until) > arg2)
+//@   ensures [C05 no-room-before-the-deadline-means-no-retry] (returned(RetryDelay) > 0 && calls(WaitForRetry) == 0) ==> !result
+//@ func pool.Acquire #c05
+//@   modifies *
+//@   assert [C05 a-dead-context-gets-a-dead-connection-carrying-its-error] at deadFn: returned(Err) != nil
+
+// ---------------------------------------------------------------------------------------------
 // C07 — cached replies expire at the earlier of the client TTL and the server PTTL (message.go, lru.go).
 // The expiry of a cached message is the 56-bit little-endian number kept in RedisMessage.ttl (0 = none).
 //@ func RedisMessage.setExpireAt
